@@ -48,7 +48,7 @@ def plan(tier, seed):
 
 def mandatory(tier):
     out = [f"mode/{m}" for m in ("linear", "nearest")] + [f"padding/{p}" for p in PADDINGS]
-    out += ["api/Image.sample(grid)", "api/ImageBatch.sample(grids)", "api/ImageBatch.sample(grid of first image)", "api/sample(coords)", "api/identity", "api/SampleImage", "api/AlignImage", "api/TransformImage", "inside_samples", "outside_constant_samples", "source/derived_grid", "source/derived_grid/fractional_internal_size"]
+    out += ["api/Image.sample(grid)", "api/ImageBatch.sample(grids)", "api/ImageBatch.sample(grid of first image)", "api/sample(coords)", "api/identity", "api/SampleImage", "api/AlignImage", "api/TransformImage", "inside_samples", "outside_constant_samples", "source/derived_grid", "source/derived_grid/fractional_internal_size", "target/slice", "api/copies"]
     return out
 
 
@@ -103,7 +103,7 @@ def target_params(rng, sref, D, kind):
     max_size = 20 if D == 2 else 10
     p = gen.rand_grid_params(rng, D, max_size=max_size, min_size=3, big_offset=False, route="center")
     ext = sref.s * sref.n
-    if kind == "inside":
+    if kind in ("inside", "slice"):
         frac = rng.uniform(0.3, 0.7, size=D)
         shift = 0.1
     else:
@@ -111,6 +111,10 @@ def target_params(rng, sref, D, kind):
         shift = 0.4
     p["center"] = gen.f32(sref.c + sref.R @ (rng.normal(size=D) * shift * ext)).tolist()
     p["spacing"] = gen.f32(ext * frac / np.asarray(p["size"], dtype=float)).tolist()
+    if kind == "slice":
+        # a single slice / row: one axis of the target has one sample (either flag)
+        ax_ = int(rng.integers(0, D))
+        p["size"] = [1 if d == ax_ else int(k) for d, k in enumerate(p["size"])]
     return p
 
 
@@ -180,8 +184,9 @@ def run_item(ctx, item):
     padding = PADDINGS[i % len(PADDINGS)]
     ctx.bucket(f"padding/{padding}")
     default = float(padding) if isinstance(padding, (int, float)) else 0.0
-    for t_kind in ("inside", "overhang"):
+    for t_kind in ("inside", "overhang", "slice"):
         tp = target_params(rng, sref, D, t_kind)
+        ctx.bucket(f"target/{t_kind}")
         tref = gen.ref_grid(tp)
         tgrid = gen.make_grid(tp)
         if gen.grid_nontrivial(sp) or gen.grid_nontrivial(tp):
@@ -211,10 +216,17 @@ def run_item(ctx, item):
             flat = coords.reshape(-1, D)
             pv = image.sample(flat, mode=mode, padding=padding)
             ctx.close("sample_pointset_equals_sample_grid", pv.reshape(out.shape), out.tensor(), 1e-6 * (1 + float(np.abs(data).max())), key="coords_vs_grid")
+        if t_kind == "slice" and tgrid.align_corners():
+            # cube-corner coordinates do not exist along an axis with one sample (2 / (n - 1)): the modules, which work
+            # in the target's normalised coordinates, are not asked to resample onto such a grid; Image.sample is
+            ctx.count("slice_target_with_aligned_corners_modules_skipped")
+            continue
         # (e) module API
         with ctx.guard("SampleImage", **info):
             ctx.bucket("api/SampleImage")
             for axes in (None, Axes.CUBE, Axes.CUBE_CORNERS, Axes.WORLD, Axes.GRID):
+                if t_kind == "slice" and axes is Axes.CUBE_CORNERS:
+                    continue  # no cube-corner coordinates along a single-sample axis
                 mod = SampleImage(tgrid, sgrid, axes=axes, sampling=mode, padding=padding)
                 a = mod.axes()
                 pts = tgrid.points(a)
@@ -225,6 +237,24 @@ def run_item(ctx, item):
             mod = SampleImage(tgrid, sgrid, sampling=mode, padding=padding)
             out = mod(tgrid.points(mod.axes()), image.tensor())
             compare(ctx, "SampleImage(unbatched)", out.numpy(), sref, tref, itk, data, mode, padding, info)
+        if t_kind == "inside":
+            # copies of the objects involved resample like the originals (their grids keep size, flag and placement)
+            with ctx.guard("copies", key="exc/copies", **info):
+                import copy as pycopy
+
+                ctx.bucket("api/copies")
+                for how, im2 in (("clone", image.clone()), ("deepcopy", pycopy.deepcopy(image)), ("copy", pycopy.copy(image))):
+                    out = im2.sample(tgrid, mode=mode, padding=padding)
+                    compare(ctx, f"Image.{how}().sample", out.tensor().numpy(), sref, tref, itk, data, mode, padding, info)
+                    ax = Axes.from_align_corners(sgrid.align_corners())
+                    cc = grid_transform_points(tgrid.coords(align_corners=sgrid.align_corners()), tgrid, ax, sgrid, ax)
+                    compare(ctx, f"Image.{how}().sample(coords)", im2.sample(cc, mode=mode, padding=padding).numpy(), sref, tref, itk, data, mode, padding, info)
+                mod = pycopy.deepcopy(SampleImage(tgrid, sgrid, sampling=mode, padding=padding))
+                out = mod(tgrid.points(mod.axes()), image.tensor())
+                compare(ctx, "deepcopy(SampleImage)", out.numpy(), sref, tref, itk, data, mode, padding, info)
+                mod = pycopy.deepcopy(AlignImage(tgrid, sgrid, sampling=mode, padding=padding if padding is not None else "zeros"))
+                out = mod(None, image.tensor().unsqueeze(0))
+                compare(ctx, "deepcopy(AlignImage)(None)", out[0].numpy(), sref, tref, itk, data, mode, padding, info)
         with ctx.guard("AlignImage", **info):
             ctx.bucket("api/AlignImage")
             mod = AlignImage(tgrid, sgrid, sampling=mode, padding=padding if padding is not None else "zeros")
